@@ -688,7 +688,20 @@ def _c15_mut(f, P):
         f.update_field_values(np.asarray(f.array) * 3)
         return f
 
-    return {"after-set": setnorm, "after-update": update}
+    pmin = np.asarray(f.mesh.region.pmin, dtype=float)
+    edges = np.asarray(f.mesh.region.edges, dtype=float)
+
+    def setnorm_fn():
+        # a norm that depends on the position: evaluated at the centres of the mesh as it is now
+        f.norm = lambda p: 1.0 + float(np.sum((np.atleast_1d(np.asarray(p, dtype=float)) - pmin) / edges))
+        return f
+
+    def setvalue_fn():
+        f.update_field_values(lambda p: tuple(float(np.atleast_1d(p)[0]) * (c + 1) / float(edges[0]) for c in range(f.nvdim)))
+        return f
+
+    return {"after-set": setnorm, "after-update": update, "after-set-function-of-position": setnorm_fn,
+            "after-update-function-of-position": setvalue_fn}
 
 
 def _c16(f, P):
